@@ -33,6 +33,14 @@ def worker(k, todo, res, lock):
             print(name, 'DOES NOT APPLY', flush=True)
             continue
         t0 = time.time()
+        demo = '/verif/seeded/%s/demo.py' % name
+        drc = None
+        if os.path.exists(demo):
+            # does the change still violate the property on the current tree?  (a later repair can neutralise an older change)
+            try:
+                drc, _ = sh('/venv/bin/python %s' % demo, cwd=wt, env=dict(os.environ, PYTHONPATH=wt, PYTHONHASHSEED='0'), timeout=900)
+            except Exception:
+                drc = None
         try:
             rc, o = sh('./check %s --tier quick' % pid, cwd='/verif', env=env)
         finally:
@@ -40,7 +48,8 @@ def worker(k, todo, res, lock):
             sh('git -C %s clean -fdq' % wt)
         viol = [l for l in o.splitlines() if l.startswith('VIOLATION')]
         with lock:
-            res[name] = {'applies': True, 'exit': rc, 'violations': len(viol), 'caught': rc == 1 and len(viol) > 0, 'seconds': round(time.time() - t0, 1)}
+            res[name] = {'applies': True, 'exit': rc, 'violations': len(viol), 'caught': rc == 1 and len(viol) > 0, 'seconds': round(time.time() - t0, 1),
+                         'demo_exit_on_current_tree_with_patch': drc, 'neutralised_by_a_later_repair': drc == 0}
             if rc != 0 and not viol:
                 res[name]['output_tail'] = o[-1500:]
         print(name, res[name], flush=True)
@@ -68,7 +77,7 @@ def main():
     rc, o = sh('git -C /repo status --short')
     res['_repo_clean_after'] = (o.strip() == '')
     json.dump(res, open('/verif/seeded/RECHECK.json', 'w'), indent=1, sort_keys=True)
-    missed = [k for k, v in res.items() if isinstance(v, dict) and not v.get('caught')]
+    missed = [k for k, v in res.items() if isinstance(v, dict) and not v.get('caught') and not v.get('neutralised_by_a_later_repair')]
     print('missed:', missed)
 
 
